@@ -333,6 +333,48 @@ fn parse_cuts(p: &serde_json::Value) -> Vec<usize> {
     p.as_array().map(|a| a.iter().map(|x| x.as_u64().unwrap() as usize).collect()).unwrap_or_default()
 }
 
+/// Long-stream family (count-based: not a partition enumeration): greeting + `n` items cycling through the message
+/// part of the menu, fed to the real framed reader whole and in fixed strides of k bytes for each k of a grid; what
+/// the reader yields must equal the reference decode every time.
+fn long_stream(n: usize, seed: u64) -> Result<u64, (String, String, serde_json::Value)> {
+    let order = [4usize, 5, 3, 6, 7, 9, 8, 4, 5, 11, 6, 3];
+    let mut s = rc::default_greeting();
+    s.extend(rc::encode_ready("DEALER", Some(b"id7")));
+    for i in 0..n {
+        let k = order[i % order.len()];
+        // the big items only now and then, so that the stream stays a few hundred kB
+        let k = if (k == 11 || k == 10) && i % 37 != 9 { 5 } else { k };
+        s.extend(menu_item(k, seed).1);
+    }
+    let want: Vec<RItem> = rc::decode_stream(&s, true).items.into_iter().map(|(i, _)| norm(&i)).collect();
+    let mut runs = 0u64;
+    for &stride in &[0usize, 1, 2, 3, 5, 7, 8, 9, 16, 31, 64, 255, 256, 257, 1000, 4095, 8191, 8192, 8193, 20_000] {
+        let mut rd = Reader::new(s.clone());
+        let mut out = Vec::new();
+        if stride == 0 {
+            rd.feed_to(s.len(), &mut out);
+        } else {
+            let mut p = 0;
+            while p < s.len() {
+                p = (p + stride).min(s.len());
+                rd.feed_to(p, &mut out);
+            }
+        }
+        runs += 1;
+        let got: Vec<Result<RItem, String>> = out.iter().map(|r| r.as_ref().map(|i| norm(&item_to_ref(i))).map_err(|e| e.clone())).collect();
+        let ok = got.len() == want.len() && got.iter().zip(&want).all(|(g, w)| g.as_ref().ok() == Some(w));
+        if !ok {
+            let first = got.iter().zip(&want).position(|(g, w)| g.as_ref().ok() != Some(w)).unwrap_or(got.len().min(want.len()));
+            return Err((
+                "long-stream/differs-from-reference".into(),
+                format!("greeting + READY + {} messages fed {}: the reader yielded {} items, the reference decode has {}; first difference at item {}", n, if stride == 0 { "whole".to_string() } else { format!("{} bytes at a time", stride) }, got.len(), want.len(), first),
+                json!({"engine":"E1","kind":"long-stream","n":n,"stride":stride,"seed":seed}),
+            ));
+        }
+    }
+    Ok(runs)
+}
+
 pub fn run(tier: Tier, replay: Option<String>) -> i32 {
     world::install_panic_hook();
     let mut ck = Check::new("C02", tier, "model_checking");
@@ -346,6 +388,18 @@ pub fn run(tier: Tier, replay: Option<String>) -> i32 {
                 let cuts = parse_cuts(&p["cuts"]);
                 Some(std::sync::Arc::new(move || socket_scenario(ty, cuts.clone())) as zvcore::explore::Scenario)
             });
+        }
+        if r["kind"] == "long-stream" {
+            return match long_stream(r["n"].as_u64().unwrap_or(0) as usize, r["seed"].as_u64().unwrap_or(0)) {
+                Ok(_) => {
+                    println!("replay: holds");
+                    0
+                }
+                Err((c, m, _)) => {
+                    println!("replay: VIOLATION {}: {}", c, m);
+                    1
+                }
+            };
         }
         let spec = StreamSpec {
             items: parse_cuts(&r["items"]),
@@ -426,6 +480,14 @@ pub fn run(tier: Tier, replay: Option<String>) -> i32 {
             });
         }
     });
+    let mut long_runs = 0u64;
+    for &n in tier.pick(&[40usize, 300, 1100][..], &[40usize, 300, 1100, 5000][..]) {
+        match long_stream(n, seed) {
+            Ok(r) => long_runs += r,
+            Err(v) => viol.lock().unwrap().push(v),
+        }
+    }
+    ck.cov("long_stream_runs", long_runs);
     let mut vs = viol.into_inner().unwrap();
     vs.sort_by_key(|v| v.2.to_string().len());
     for (c, m, r) in vs {
@@ -471,7 +533,7 @@ pub fn run(tier: Tier, replay: Option<String>) -> i32 {
         st + tr + ck.coverage.get("e3_executions").and_then(|v| v.as_u64()).unwrap_or(0),
     );
     ck.cov("exhaustive", true);
-    ck.cov("explanation", format!("states = (bytes fed, reader state) nodes summed over {} streams (greeting + up to {} items from a 12-item menu); transitions = edges p->q, each executed on the real FramedRead over a harness reader and required to land in the unique state recorded for q; cut set = every byte position for streams up to {} bytes, else every position within 12 bytes of an item/frame/length-field boundary plus 4096k+-1. Each stream additionally: reference decode of every prefix, and EOF at every cut. Socket level: 7 socket types, all single cuts{} and byte-at-a-time delivery of greeting+READY+2 messages through real attach+recv.", specs.len(), tier.pick(3, 4), dense_limit, tier.pick(", all pairs of cuts past byte 56", ", all pairs of cuts")));
+    ck.cov("explanation", format!("states = (bytes fed, reader state) nodes summed over {} streams (greeting + up to {} items from a 12-item menu); transitions = edges p->q, each executed on the real FramedRead over a harness reader and required to land in the unique state recorded for q; cut set = every byte position for streams up to {} bytes, else every position within 12 bytes of an item/frame/length-field boundary plus 4096k+-1. Each stream additionally: reference decode of every prefix, and EOF at every cut. Long-stream family (count-based, not a partition enumeration): greeting + READY + 40 / 300 / 1100 (thorough 5000) messages fed whole and in 19 fixed strides (1 B .. 20 kB). Socket level: 7 socket types, all single cuts{} and byte-at-a-time delivery of greeting+READY+2 messages through real attach+recv.", specs.len(), tier.pick(3, 4), dense_limit, tier.pick(", all pairs of cuts past byte 56", ", all pairs of cuts")));
     ck.sample(json!({"stream": build(&StreamSpec{items: vec![1,5]}, seed).2, "cut_positions": cut_set(build(&StreamSpec{items: vec![1,5]}, seed).0.len(), &[], 400).len()}));
     ck.assume("the reader's future behaviour is a function of (decoder Debug state, unread buffer bytes) and the remaining input — true of FramedRead2 + ZmqCodec, whose only fields these are");
     ck.assume("reads larger than 8 KiB are split by FramedRead2's own 8 KiB scratch buffer, as in production");
